@@ -326,7 +326,8 @@ def cast_guards(F, rep, rule="C07.6"):
                 rep.violated(rule, key, "Scanner::scan narrows an interval quantity to u%d with `as` (line %s) and no dominating assertion bounds it below 2^%d: "
                              "long k-mers / sequences wrap silently" % (tgt["w"], st.get("ln"), tgt["w"]), site=F.site(body, st.get("ln")),
                              witness={"kind": "cast-guard", "bits": tgt["w"], "expr": C.show(src_e)[:300]})
-    rep.floor("narrowing casts in Scanner::scan", 4, n)
+    if n == 0:
+        rep.holds(rule, "scan/no-narrowing-casts", "Scanner::scan contains no narrowing `as` cast", nontrivial=False)
 
 
 # =========================================================================== C08 shard assignment
@@ -352,40 +353,95 @@ class ScoreOracles(LinOracles):
         return None
 
 
-def score_closure_tables(F, rep, rule="C08.1"):
-    """the score used for shard assignment is perm[rank(p)] — and min over both strands when rc is on"""
-    hosts = [("msp::msp_sequence", "msp_sequence"), ("msp::simple_scan", "simple_scan")]
-    for host, nm in hosts:
-        # the score closure is the closure of that function taking one &P argument and returning usize
-        cl = [b for b in F.fns.values() if b["path"].startswith(host + "::{closure") and b["argc"] == 2 and F.ty(b["locals"][0]).get("k") == "uint"
-              and F.ty(b["locals"][2]).get("k") == "ref"]
-        if len(cl) != 1:
-            rep.violated(rule, "score/" + nm, "anchor-missing: score closure of %s (found %d)" % (host, len(cl)), witness={"kind": "anchor-missing"})
+class MspHostOracles(ScoreOracles):
+    """runs msp_sequence / simple_scan with the scanner scripted; captures the score callable handed to Scanner::new"""
+
+    def __init__(self, script=()):
+        ScoreOracles.__init__(self, script)
+        self.score = None
+        self.ev = []
+        self.K, self.P, self.N = 4, 2, 10
+
+    def on_call(self, it, fn, args, dest_ty, term, caller):
+        path = fn.get("path", "")
+        name = path.split("::")[-1]
+        tr = fn.get("trait", "")
+        if is_print_call(fn):
+            return Opaque(dest_ty, {"fmt"})
+        if tr == "Kmer" and name == "k":
+            return Int(64, False, val=self.P)
+        if tr == "Vmer" and name == "max_len":
+            return Int(64, False, val=1 << 40)
+        if tr == "Mer" and name == "len":
+            return Int(64, False, val=self.N)
+        if path.startswith("msp::Scanner") and name == "new":
+            self.score = args[1]
+            self.ev.append(("scanner-new", "seq" in tags_of(recv(it, args[0])) or any("seq" in tags_of(f) for f in getattr(recv(it, args[0]), "fields", ())),
+                            args[2].val if isinstance(args[2], Int) and args[2].is_conc() else None))
+            return Opaque("Scanner", {"scanner"})
+        if path.startswith("msp::Scanner") and name == "scan":
+            ivs = []
+            for i in range(2):
+                ivs.append(struct_of(it.facts, "msp::MspIntervalP", {"minimizer": Opaque("P", {"pmer"}, {"p": "m%d" % i}), "start": atom_int(32, "s%d" % i),
+                                                                    "len": atom_int(16, "l%d" % i), "minimizer_pos": atom_int(32, "mp%d" % i)}))
+            return VecV(ivs)
+        if name == "from_slice" and tr == "Vmer":
+            sl = args[0]
+            ok = isinstance(sl, Ref) and "seq" in tags_of(it.read(sl.cell, sl.path))
+            self.ev.append(("piece", ok, affs(sl.off) if isinstance(sl, Ref) and isinstance(sl.off, Int) else repr(getattr(sl, "off", None)),
+                            affs(sl.len) if isinstance(sl, Ref) and isinstance(sl.len, Int) else repr(getattr(sl, "len", None))))
+            return Opaque("V", {"piece:%d" % sum(1 for e in self.ev if e[0] == "piece")})
+        if path == "Exts::from_slice_bounds":
+            self.ev.append(("exts", "seq" in tags_of(recv(it, args[0])), affs(args[1]), affs(args[2])))
+            return Adt(EXTS, 0, [Int(8, False, bits=[TOP] * 8)], tags=frozenset({"pexts:%d" % sum(1 for e in self.ev if e[0] == "exts")}))
+        if name == "bucket" and "MspIntervalP" in path:
+            iv = recv(it, args[0])
+            m = [f for f in iv.fields if isinstance(f, Opaque) and "pmer" in f.tags]
+            return Int(64, False, bits=[TOP] * 64, tags=frozenset({"bucket-of:%s" % (m[0].info.get("p") if m else "?")}))
+        return ScoreOracles.on_call(self, it, fn, args, dest_ty, term, caller)
+
+    def opaque_index(self, it, v, idx, base):
+        if "seq" in tags_of(v) and isinstance(idx, Adt) and idx.name.endswith("ops::Range"):
+            s_, e_ = idx.fields
+            return Ref(base.cell if base is not None else Cell(v), base.path if base is not None else (), s_, bv.binop("Sub", e_, s_))
+        return ScoreOracles.opaque_index(self, it, v, idx, base)
+
+    def opaque_len(self, it, v):
+        if "seq" in tags_of(v):
+            return Int(64, False, val=self.N)
+        return None
+
+
+def msp_host_tables(F, rep, rule_score="C08.1", rule_piece="C08.2"):
+    """msp_sequence and simple_scan: the score handed to the scanner, and (msp_sequence) the pieces built from its intervals"""
+    from .models import call_callable
+    for host, nm in (("msp::msp_sequence", "msp_sequence"), ("msp::simple_scan", "simple_scan")):
+        body = F.fns.get(host)
+        if body is None:
+            rep.violated(rule_score, "score/" + nm, "anchor-missing: %s" % host, witness={"kind": "anchor-missing"})
             continue
-        body = cl[0]
-        # upvars: find which are bool (rc) and which the permutation
-        ct = F.ty(F.ty(body["locals"][1]).get("t", ""))
-        ups = ct.get("upvars") or []
         problems = []
         inc = []
+        piece_problems = []
         rows = 0
         for rc in (False, True):
             def mk(script):
-                return ScoreOracles(script)
+                return MspHostOracles(script)
 
             def run(h, rc=rc):
                 it = Interp(F, False, h)
-                upv = []
-                for u in ups:
-                    ut = F.ty(u)
-                    inner = F.ty(ut.get("t", "")) if ut.get("k") == "ref" else ut
-                    if inner.get("k") == "bool":
-                        upv.append(Ref(Cell(mkbool(rc), "rc")) if ut.get("k") == "ref" else mkbool(rc))
-                    else:
-                        pv = Ref(Cell(Opaque("[usize]", {"perm"}), "perm"))
-                        upv.append(Ref(Cell(pv, "perm-ref")) if ut.get("k") == "ref" and inner.get("k") == "ref" else pv)
-                env = Closure(body["path"], upv)
-                return it.call_body(body, [Ref(Cell(env, "env")), Ref(Cell(Opaque("P", {"pmer"}, {"p": "p"}), "pi"))])
+                h.it = it
+                seq = Ref(Cell(Opaque("[u8]", {"seq"}), "seq"))
+                perm = Ref(Cell(Opaque("[usize]", {"perm"}), "perm"))
+                if nm == "msp_sequence":
+                    args = [Int(64, False, val=h.K), seq, Adt("std::option::Option", 1, [perm]), mkbool(rc)]
+                else:
+                    args = [Int(64, False, val=h.K), Ref(Cell(Opaque("V", {"seq"}), "seqv")), perm, mkbool(rc)]
+                out = it.call_body(body, args)
+                if h.score is None:
+                    raise Unsupported("no score function was handed to Scanner::new")
+                sc = call_callable(it, h.score, [Ref(Cell(Opaque("P", {"pmer"}, {"p": "p"}), "pi"))], {"ln": None}, body, 0)
+                return (out, sc)
             for a, out, h in explore(mk, run):
                 rows += 1
                 rep.evaluations += 1
@@ -395,101 +451,70 @@ def score_closure_tables(F, rep, rule="C08.1"):
                 if isinstance(out, tuple) and out and out[0] == "diverge":
                     problems.append("diverges: %s" % out[1])
                     continue
-                got = affs(out)
+                res, sc = out
+                got = affs(sc)
                 if not rc:
                     if got != "perm[p]":
                         problems.append("rc=false: the score of p is %s; required perm[rank(p)]" % got)
                 else:
                     le = h.truth("Le", {"perm[p]": 1, "perm[rc(p)]": -1}, 0)
                     if le is None:
-                        problems.append("rc=true: the score %s is not the minimum of perm[rank(p)] and perm[rank(rc(p))] (compared: %s) — a k-mer and its "
-                                        "reverse complement can be sent to different shards" % (got, [n for n, _ in h.obs.get("cmp", [])]))
-                        continue
-                    want = "perm[p]" if le else "perm[rc(p)]"
-                    eq = h.truth("Eq", {"perm[p]": 1, "perm[rc(p)]": -1}, 0)
-                    if got != want and not (eq and got in ("perm[p]", "perm[rc(p)]")):
-                        problems.append("rc=true: the score is %s, required %s" % (got, want))
+                        problems.append("rc=true: the score %s is not the minimum of perm[rank(p)] and perm[rank(rc(p))] (compared: %s) — a k-mer and its reverse "
+                                        "complement can be sent to different shards" % (got, [n for n, _ in h.obs.get("cmp", [])]))
+                    else:
+                        want = "perm[p]" if le else "perm[rc(p)]"
+                        eq = h.truth("Eq", {"perm[p]": 1, "perm[rc(p)]": -1}, 0)
+                        if got != want and not (eq and got in ("perm[p]", "perm[rc(p)]")):
+                            problems.append("rc=true: the score is %s, required %s" % (got, want))
+                if nm == "msp_sequence":
+                    pieces = [e for e in h.ev if e[0] == "piece"]
+                    exts = [e for e in h.ev if e[0] == "exts"]
+                    want_p = [("piece", True, "s%d" % i, "l%d" % i) for i in range(2)]
+                    want_e = [("exts", True, "s%d" % i, "l%d" % i) for i in range(2)]
+                    if pieces != want_p:
+                        piece_problems.append("pieces are built from (read?, start, len) = %s; required the read's bases [start_i, start_i+len_i) of each interval: %s" % (pieces, want_p))
+                    if exts != want_e:
+                        piece_problems.append("boundary extensions are computed for %s; required the same read and the same (start, len) as each piece: %s" % (exts, want_e))
+                    if isinstance(res, VecV) and len(res.elems) == 2:
+                        for i, t in enumerate(res.elems):
+                            ok = isinstance(t, Tup) and len(t.fields) == 3 and "bucket-of:m%d" % i in tags_of(t.fields[0]) and "pexts:%d" % (i + 1) in tags_of(t.fields[1]) \
+                                and "piece:%d" % (i + 1) in tags_of(t.fields[2])
+                            if not ok:
+                                piece_problems.append("emitted triple %d is not (bucket of interval %d's minimizer, that piece's extensions, that piece): %r" % (i, i, t))
+                    else:
+                        inc.append("result of msp_sequence is %r" % (res,))
         if problems:
-            rep.violated(rule, "score/" + nm, "%s score: %s" % (nm, problems[0]), site=F.site(body, body["line"]), witness={"kind": "row", "count": len(problems)})
+            rep.violated(rule_score, "score/" + nm, "%s score: %s" % (nm, problems[0]), site=F.site(body, body["line"]), witness={"kind": "row", "count": len(problems)})
         elif inc:
-            rep.inconclusive(rule, "score/" + nm, "%s score: %s" % (nm, inc[0]))
+            rep.inconclusive(rule_score, "score/" + nm, "%s: %s" % (nm, inc[0]))
         else:
-            rep.holds(rule, "score/" + nm, "%s: score(p) = perm[rank(p)], and min(perm[rank(p)], perm[rank(rc p)]) in reverse-complement mode (%d rows)" % (nm, rows))
+            rep.holds(rule_score, "score/" + nm, "%s: the score handed to the scanner is perm[rank(p)], and min(perm[rank(p)], perm[rank(rc p)]) in reverse-complement mode (%d rows)" % (nm, rows))
+        if nm == "msp_sequence":
+            if piece_problems:
+                rep.violated(rule_piece, "piece", "msp_sequence: %s" % piece_problems[0], site=F.site(body, body["line"]), witness={"kind": "same-operand", "count": len(piece_problems)})
+            elif not inc and not problems:
+                rep.holds(rule_piece, "piece", "msp_sequence: each piece is read[start..start+len] of its interval, its extensions are from_slice_bounds(read, start, len), its bucket is that interval's bucket")
+
+
+def score_closure_tables(F, rep, rule="C08.1"):
+    msp_host_tables(F, rep, rule, "C08.2")
 
 
 def piece_closure_table(F, rep, rule="C08.2"):
-    """each piece is seq[start..start+len], its extensions are from_slice_bounds(seq, start, len) on the same read, its bucket the canonical minimizer's rank"""
-    cl = [b for b in F.fns.values() if b["path"].startswith("msp::msp_sequence::{closure") and b["argc"] == 2 and F.ty(b["locals"][0]).get("k") == "tuple"]
-    if len(cl) != 1:
-        rep.violated(rule, "piece", "anchor-missing: piece-building closure of msp_sequence (found %d)" % len(cl), witness={"kind": "anchor-missing"})
-        return
-    body = cl[0]
-
-    class H(LinOracles):
-        def __init__(self, script=()):
-            LinOracles.__init__(self, script)
-            self.ev = {}
-
-        def on_call(self, it, fn, args, dest_ty, term, caller):
-            path = fn.get("path", "")
-            name = path.split("::")[-1]
-            tr = fn.get("trait", "")
-            if name == "from_slice" and tr == "Vmer":
-                sl = args[0]
-                self.ev["piece"] = ("seq" in tags_of(it.read(sl.cell, sl.path)) if isinstance(sl, Ref) else False, affs(sl.off) if isinstance(sl, Ref) else None,
-                                    affs(sl.len) if isinstance(sl, Ref) else None)
-                return Opaque("V", {"piece"})
-            if path == "Exts::from_slice_bounds":
-                sl = args[0]
-                self.ev["exts"] = ("seq" in tags_of(recv(it, sl)), affs(args[1]), affs(args[2]))
-                return Adt(EXTS, 0, [Int(8, False, bits=[TOP] * 8)], tags=frozenset({"piece-exts"}))
-            if name == "bucket" and "MspIntervalP" in path:
-                return Int(64, False, bits=[TOP] * 64, tags=frozenset({"bucket-of-minimizer"}))
-            return NotImplemented
-
-        def opaque_index(self, it, v, idx, base):
-            if isinstance(idx, Adt) and idx.name.endswith("ops::Range"):
-                s, e = idx.fields
-                return Ref(base.cell if base is not None else Cell(v), base.path if base is not None else (), s, bv.binop("Sub", e, s))
-            return None
-    h = H()
-    it = Interp(F, False, h)
-    msp = struct_of(F, "msp::MspIntervalP", {"minimizer": Opaque("P", {"pmer"}), "start": atom_int(32, "s"), "len": atom_int(16, "l"), "minimizer_pos": atom_int(32, "mp")})
-    ct = F.ty(F.ty(body["locals"][1]).get("t", ""))
-    ups = ct.get("upvars") or []
-    seq_ref = Ref(Cell(Opaque("[u8]", {"seq"}), "seq"))
-    upv = [Ref(Cell(seq_ref, "seq-ref")) if F.ty(u).get("k") == "ref" and F.ty(F.ty(u).get("t", "")).get("k") == "ref" else seq_ref for u in ups]
-    rep.evaluations += 1
-    try:
-        out = it.call_body(body, [Ref(Cell(Closure(body["path"], upv), "env")), msp])
-    except (Undecided, Unsupported) as e:
-        rep.inconclusive(rule, "piece", "piece closure: %s" % e)
-        return
-    except Diverge as e:
-        rep.violated(rule, "piece", "piece closure diverges: %s" % e)
-        return
-    pr = []
-    if h.ev.get("piece") != (True, "s", "l"):
-        pr.append("the piece is built from %s; required the read's bases [start, start+len)" % (h.ev.get("piece"),))
-    if h.ev.get("exts") != (True, "s", "l"):
-        pr.append("the piece's boundary extensions are computed for (read?, start, len) = %s; required the same read and the same (start, len) as the piece" % (h.ev.get("exts"),))
-    if not (isinstance(out, Tup) and len(out.fields) == 3 and "bucket-of-minimizer" in tags_of(out.fields[0]) and "piece-exts" in tags_of(out.fields[1]) and "piece" in tags_of(out.fields[2])):
-        pr.append("the emitted triple is not (bucket of the interval's minimizer, the piece's extensions, the piece)")
-    if pr:
-        rep.violated(rule, "piece", "msp_sequence: %s" % pr[0], site=F.site(body, body["line"]), witness={"kind": "same-operand", "count": len(pr)})
-    else:
-        rep.holds(rule, "piece", "msp_sequence: each piece is read[start..start+len], its extensions are from_slice_bounds(read, start, len), its bucket is the interval's bucket")
     # bucket = rank of the canonical minimizer
     bb = F.fns.get("msp::MspIntervalP::<P>::bucket")
     if bb is None:
         rep.violated("C08.4", "bucket", "anchor-missing: MspIntervalP::bucket", witness={"kind": "anchor-missing"})
         return
+    msp = struct_of(F, "msp::MspIntervalP", {"minimizer": Opaque("P", {"pmer"}), "start": atom_int(32, "s"), "len": atom_int(16, "l"), "minimizer_pos": atom_int(32, "mp")})
 
     class HB(Oracles):
         def on_call(self, it, fn, args, dest_ty, term, caller):
             nm = fn.get("path", "").split("::")[-1]
             if fn.get("trait") == "Kmer" and nm == "min_rc":
                 return Opaque("P", {"canon-minimizer"})
+            if fn.get("trait") == "Kmer" and nm == "min_rc_flip":
+                return Tup([Opaque("P", {"canon-minimizer"}), mkbool(False)])
             if fn.get("trait") == "Kmer" and nm == "to_u64":
                 return Int(64, False, bits=[TOP] * 64, tags=frozenset(tags_of(recv(it, args[0])) | {"rank"}))
             return NotImplemented
